@@ -55,15 +55,29 @@ def shrink_overlay(cid, tier):
 SPEC = dict(pkg=PKG, test=TEST, level="exploration", workers=16, hooks=HOOKS, rule=RULE, assumptions=ASSUMPTIONS,
             overlay_extra=shrink_overlay, deadline={"quick": 240, "thorough": 2100})
 
-CLAIMED = False
+CLAIMED = True
 MANIFEST = dict(
     level="exploration",
     engine="seqx+crashfs",
-    technique="bounded exhaustive history exploration of the real on-disk raft log (fresh directory per history, oracle after every "
-              "step) with etcd raft MemoryStorage as differential reference, plus fault enumeration: a crash image before every "
-              "intercepted file-system mutation, reopened with the real recovery code",
-    text="",
-    note="",
+    technique="bounded exhaustive history exploration of the real on-disk raft log (fresh directory per history, all contract "
+              "queries after every step) with etcd raft MemoryStorage as differential reference, plus fault enumeration: a "
+              "crash image before every intercepted file-system mutation of the last operation, reopened with the real Init",
+    text="Every history over {Save(batch start=last+1-k, k<=5 (6 thorough), size 1|3, same or next term, with hard state), Save(hard "
+         "state), CreateSnapshot(first|mid|last|last+1|first-1), DeleteBefore(mid|last|last+1), close+reopen} of length <= 4 (quick) / "
+         "<= 5 full + 6 on a reduced alphabet (thorough) is executed on the real RaftDiskStorage (both file access types), in a "
+         "build where the per-file entry limit is 4 so that rotation, conflicts into rotated files and whole-file compaction are "
+         "reached; thorough adds the unmodified constants with 11 MiB payloads (size rotation). After every step FirstIndex, "
+         "LastIndex, Term(i) on [first-1,last+1] and at the snapshot index, Entries(lo,hi,max) for all lo<=hi in that window x "
+         "max in {0, one entry, unlimited} with payload bytes, Snapshot and InitialState are compared with etcd's MemoryStorage fed "
+         "the same operations. Crash part: for histories of length <= 2 (quick) / <= 3 (thorough) the directory is copied before "
+         "every file-system mutation of the last operation (and at page boundaries inside large writes), each image is reopened "
+         "with the real Init and must show the state before the operation or one of its unacknowledged partial outcomes.",
+    note="Exhaustive only within the stated alphabet, lengths and the shrunk entry limit (slot table 4 entries = one page: a wipe "
+         "torn across pages of the real 30000-slot table is not reached). DeleteBefore/recovery may move the first index anywhere "
+         "in the legal window and the reference is aligned to it; size-limited Entries must be a non-empty prefix; the oracle's own "
+         "reads are part of the history (they warm the store's caches). Trusts: etcd MemoryStorage as the contract, the fileops "
+         "interception point, process-death failure model (no power loss). Six defects of the unchanged tree are recorded as known "
+         "findings with proposed repairs in /verif/fixes/C17-*.diff.",
 )
 
 
